@@ -55,7 +55,7 @@ def make_table(layout, pattern, n, rs):
             out[cols[j]] = np.where(U[:, j] < 0.4, stats.norm(0, 1).ppf(U[:, j] / 0.4), stats.norm(8, 1.5).ppf((U[:, j] - 0.4) / 0.6))
         else:
             out[cols[j]] = law(kind).ppf(U[:, j])
-    return pd.DataFrame(out), R
+    return pd.DataFrame(out, index=rs.permutation(n) + 17), R
 
 
 def true_cdf(kind, x):
@@ -97,7 +97,13 @@ def _run(job):
     try:
         np.random.seed(seed)
         m = GaussianMultivariate(random_state=seed % 1000 + 1, **config(case['form'], layout, cols))
-        m.fit(df.copy())
+        as_array = (seed % 5 == 0 and case['form'] != 'dict')       # every fifth request trains on a plain 2-D array: columns are 0..d-1
+        if as_array:
+            m.fit(df.to_numpy(dtype=float).copy())
+            cols = list(range(d))
+            df.columns = cols
+        else:
+            m.fit(df.copy())
         s = m.sample(n)
         if len(s) != n:
             rec['exact'].append('row-count')
